@@ -23,25 +23,28 @@ LEVEL_TEXT = ("Coq theorems over (a) a world model {python stream, numpy stream,
               "footprints avoid the OS is reproducible after seed(s) whatever the prior world, a call with an explicit-generator "
               "footprint leaves both global streams untouched and depends on that generator only; (b) the reference graph of the "
               "whole package regenerated from the source on every run: every anchored stochastic component reaches only its own "
-              "generator (this now includes the subset optimisers built on pymoo_addon's sampling/crossover/mutation operators, the 8 selection "
-              "protocols' select() and default-optimiser setters, the random-selection problem constructors, Generalized1NormGenomicSelection.select "
-              "and the legacy set GA, all repaired: their former root causes are proved explicit-only without exception, with regression "
-              "witnesses about the former code), no function of the package reaches OS entropy, every function that accepts rng is explicit-only "
-              "up to the named root causes of the findings that remain known (memetic mutation operators, helpers without an rng parameter, deap's "
-              "selTournamentDCD), no function snapshots a generator (copy/deepcopy/pickle/get_state of a generator reference); (c) a bit-exact MT19937 "
+              "generator (this now includes the subset and the memetic optimisers built on pymoo_addon's sampling/crossover/mutation operators, the 8 selection "
+              "protocols' select() and default-optimiser setters, the rng setters of the selection protocols, the random-selection problem constructors, "
+              "Generalized1NormGenomicSelection.select and the legacy set GA, all repaired: their former root causes are proved explicit-only without exception, "
+              "with regression witnesses about the former code), no function of the package reaches OS entropy, every function that accepts rng is explicit-only "
+              "up to the named root causes of the findings that remain known (helpers without an rng parameter, deap's "
+              "selTournamentDCD), no function snapshots a generator (copy/deepcopy/pickle/get_state of a generator reference), the deep-copy routes of the "
+              "stochastic classes exist and share; (c) a bit-exact MT19937 "
               "model of prng.seed/spawn whose argument, bounds, count, guard and default expressions are REGENERATED from prng.py (Gen/C08_Kernel.v) and "
               "proved equal to the hand model, with range theorems about the generated expressions (numpy's seed <= 2^32-1, spawn seeds <= 2^sbits-1, "
               "exactly the negative counts are refused, the pymoo seed of all 13 minimize() sites is an unsigned 32-bit function of the optimiser's draw); "
               "(d) an object/copy world model: reproducibility after seeding and isolation of explicit generators survive programs with copies of "
-              "components (copies share the generator; a copy is observationally its source), snapshot copies and a setter that leaves a part on the old "
-              "generator are refuted. The model is tied "
+              "components (copies, shallow and deep, share the generator; a copy is observationally its source), after `prot.rng = g` every call on the protocol "
+              "and on the default optimiser it built draws from g only; the former snapshot deep copy and the former setter that left the optimiser on the old "
+              "generator are kept as refuted regression witnesses (old_ definitions). The model is tied "
               "to the code by evaluating it inside Coq against the implementation (seed/spawn states bit for bit; observed stream "
               "movements and reproducibility of every stochastic API against the static footprints; components obtained through copy.copy / copy.deepcopy / "
-              ".copy() / .deepcopy() / the rng setter, before or after the seeding, compared with the same program without copies)")
+              ".copy() / .deepcopy() / the rng setter, before or after the seeding, compared with the same program without copies - no copy route and no setter "
+              "is excused any more)")
 LEVEL_NOTE = ("trusted: Coq kernel + vm_compute; the ast translator (over-approximating reference graph: attribute access on objects of "
               "unknown class is linked to every member of that name; methods invoked implicitly by operators are checked separately "
               "to be source-free); hand-entered third-party facts (pymoo 0.6.2 minimize() seeds default_rng(seed), None without a seed argument, "
-              "and hands that generator to every operator as random_state; deap selTournamentDCD uses python's random); numpy/CPython generators themselves; theorems are about the Gallina "
+              "and hands that generator to every operator as random_state (the translator flags an operator that does not pass it on to a helper taking random_state); deap selTournamentDCD uses python's random); numpy/CPython generators themselves; theorems are about the Gallina "
               "model, the tie to the code is the regenerated table plus differential runs on generated inputs")
 TECHNIQUE = "Coq proof over a regenerated footprint table + bit-exact MT19937 seed model; in-Coq vm_compute correspondence with dynamic runs"
 RULE = ("case kinds from one PRNG: seedmodel (seed in boundary set {0,1,2^32-1,2^32,2^64,negative,multi-word} or random up to 2^96; spawn "
@@ -55,10 +58,13 @@ RULE = ("case kinds from one PRNG: seedmodel (seed in boundary set {0,1,2^32-1,2
         "Object lifecycle: every object component (mating, phenotyping, selection protocols/configurations, optimisers) is also obtained through a copy route "
         "(all of __copy__/__deepcopy__/copy()/deepcopy() with and without memo, chains, for classes that define them; python's default shallow copy for the others; "
         "the rng property setter) and/or constructed BEFORE the seeding / stream perturbation, then used; a third reference run executes the same program without "
-        "copies from the same seed / generator state: outputs, final global streams and final generator state must coincide. python's default deep copy and the "
-        "rng setter of protocols with default optimisers are exercised and classified as known findings. Seed model: spawn requests incl. negative counts (refused), "
+        "copies from the same seed / generator state: outputs, final global streams and final generator state must coincide. Deep copies (the __deepcopy__ "
+        "inherited from the six base classes: deepcopy with and without memo, chains, after the setter) of every object component and the rng setter of every "
+        "protocol with default optimisers (incl. the legacy Generalized1NormGenomicSelection) are ordinary cases that must agree. Seed model: spawn requests incl. negative counts (refused), "
         "sbits omitted (default). Fail-closed audit by introspection: all 117 classes/functions/methods accepting rng are executed by a component, inherit "
-        "select() from an executed family base (checked), or are skipped with a reason; copy methods of stochastic classes must match the lifecycle table")
+        "select() from an executed family base (checked), or are skipped with a reason; copy methods of stochastic classes must match the lifecycle table: "
+        "every class accepting rng must inherit the generator-sharing __deepcopy__ of one of the six base classes and define no other copy method, or be "
+        "listed with all its routes (G_E_Phenotyping)")
 TRUSTED = ["harness/translate/c08_entropy.py (ast translator, fail closed on unclassified references to entropy-bearing modules)",
            "harness/translate/c08_kernel.py (kernel expressions of prng.seed / prng.spawn / minimize(seed=...) located by statement shape, fail closed; python int() on a non-negative rational = floor)",
            "pymoo 0.6.2 Algorithm.setup: random_state = default_rng(seed), seed None unless passed to minimize(): OS entropy iff a minimize() call site passes no seed (entered by hand, checked syntactically at every call site, cross-checked dynamically)",
@@ -74,7 +80,7 @@ ASSUMPTIONS = ["seeds are Python ints (seed(None) deliberately takes OS entropy)
 # pymoo-based optimisers.  Since /repo commit 0de6ee80 every minimize() seeds pymoo's generator from self.rng.
 GA_PYMOO_OPS = ("BinaryGA", "IntegerGA", "RealGA", "NSGA2BinaryGA", "NSGA2IntegerGA", "NSGA2RealGA")     # pymoo's own operators only: clean
 GA_SUBSET_OPS = ("SubsetGA", "NSGA2SubsetGA", "NSGA3SubsetGA")      # + the subset operators of pymoo_addon: draw from pymoo's random_state since 892609c5
-GA_MEMETIC = ("MemeticA", "MemeticB", "MemeticSteepest", "MemeticStochastic")  # + memetic mutation operators of pymoo_addon (numpy.random global): known finding
+GA_MEMETIC = ("MemeticA", "MemeticB", "MemeticSteepest", "MemeticStochastic")  # + memetic mutation operators of pymoo_addon: draw from pymoo's random_state since 116e97ae
 GA_COMPS = GA_PYMOO_OPS + GA_SUBSET_OPS + GA_MEMETIC
 # selection protocols handed their own generator (repaired 92407149): deterministic optimiser / default optimisers (1 and 2 objectives) / mate protocols
 SELPROT_COMPS = ("SelProtSubset", "SelProtSubsetGA", "SelProtSubsetMO", "SelProtReal", "SelProtRealMO", "SelProtBinary", "SelProtBinaryMO",
@@ -400,14 +406,17 @@ def _randsel(kind):
         return {"rbv": _arr(prob.rbv)}
     return _obj(["breed.prot.sel.RandomSelection.Random%sSelection.problem" % kind.capitalize()], True, build, use)
 
-def _g1norm(par, rng):
+def _g1norm_build(par, rng):
     """legacy protocol: hill climber (draws from the protocol's generator), then the selected parents are shuffled"""
     from pybrops.breed.prot.sel.UnconstrainedGeneralized1NormGenomicSelection import Generalized1NormGenomicSelection
     from pybrops.core.random.prng import global_prng
+    with warnings.catch_warnings():
+        warnings.simplefilter("ignore")
+        return Generalized1NormGenomicSelection(nparent=par.get("nparent", 3), ncross=1, nprogeny=2, rng=(rng if rng is not None else global_prng))
+def _g1norm_use(prot, par):
     pg = _pgmat(par); gm = _gmod(par, 1)
     with warnings.catch_warnings():
         warnings.simplefilter("ignore")
-        prot = Generalized1NormGenomicSelection(nparent=par.get("nparent", 3), ncross=1, nprogeny=2, rng=(rng if rng is not None else global_prng))
         out = prot.select(pgmat=pg, gmat=pg, ptdf=None, bvmat=None, gpmod=gm, t_cur=0, t_max=1)
     return {"sel": _arr(out[1])}
 
@@ -479,7 +488,7 @@ COMPONENTS = {
     "MateSelProtReal": _mateselprot("real"), "MateSelProtRealMO": _mateselprot("real", 2),
     "RandomSelProt": _randsel("subset"), "RandomSelProtBinary": _randsel("binary"), "RandomSelProtInteger": _randsel("integer"),
     "RandomSelProtReal": _randsel("real"),
-    "G1NormSel": (["breed.prot.sel.UnconstrainedGeneralized1NormGenomicSelection.Generalized1NormGenomicSelection.select"], True, _g1norm),
+    "G1NormSel": _obj(["breed.prot.sel.UnconstrainedGeneralized1NormGenomicSelection.Generalized1NormGenomicSelection.select"], True, _g1norm_build, _g1norm_use),
     "OCSProblem": (["breed.prot.sel.OptimalContributionSelection.OptimalContributionSubsetSelection.problem"], True, _ocs_problem),
 }
 
@@ -496,23 +505,50 @@ LIFE = {"ctor": [], "copy": ["copy"], "deepcopy": ["deepcopy"], "mcopy": ["mcopy
         "copy+copy": ["copy", "copy"],
         # the generator arrives through the property setter: constructed on a throw-away generator, then `obj.rng = <the generator>`
         # (None = the global stream); must behave as if constructed with it
-        "setter": ["setter"], "setter+copy": ["setter", "copy"], "setter+mdeepcopy": ["setter", "mdeepcopy"]}
+        "setter": ["setter"], "setter+copy": ["setter", "copy"], "setter+mdeepcopy": ["setter", "mdeepcopy"], "setter+deepcopy": ["setter", "deepcopy"],
+        "deepcopy+deepcopy_memo": ["deepcopy", "deepcopy_memo"]}
 # classes that define copy routes of their own (the library says what a copy is): component -> (class path, routes, table names).
 # Verified by introspection in audit_entry_points(): a stochastic class that gains / loses a copy method must be reclassified here.
 OWN_COPY = {"G_E_Phenotyping": ("pybrops.breed.prot.pt.G_E_Phenotyping.G_E_Phenotyping", ("__copy__", "__deepcopy__", "copy", "deepcopy"),
                                 ["breed.prot.pt.G_E_Phenotyping.G_E_Phenotyping.__copy__", "breed.prot.pt.G_E_Phenotyping.G_E_Phenotyping.__deepcopy__"])}
 LIFE_OWN = [k for k in LIFE if k != "ctor"]                      # every route
-LIFE_DEFAULT_OK = ["copy", "copy+copy", "setter", "setter+copy"]      # python's default shallow copy shares the attributes: must behave as the source
+# every other stochastic class inherits __deepcopy__ from one of six base classes (the copy SHARES the generator, as G_E_Phenotyping's does; /repo 02111a60):
+# base class -> table name of its __deepcopy__.  Verified by introspection in audit_entry_points(): a class accepting rng whose deep copy is not one of these
+# (python's default deep copy would duplicate the generator), or that gains another copy method, must be reclassified.
+BASE_DEEPCOPY = {"pybrops.breed.prot.mate.MatingProtocol.MatingProtocol": "breed.prot.mate.MatingProtocol.MatingProtocol.__deepcopy__",
+                 "pybrops.breed.prot.sel.SelectionProtocol.SelectionProtocol": "breed.prot.sel.SelectionProtocol.SelectionProtocol.__deepcopy__",
+                 "pybrops.breed.prot.sel.UnconstrainedSelectionProtocol.UnconstrainedSelectionProtocol": "breed.prot.sel.UnconstrainedSelectionProtocol.UnconstrainedSelectionProtocol.__deepcopy__",
+                 "pybrops.breed.prot.sel.cfg.SampledSelectionConfigurationMixin.SampledSelectionConfigurationMixin":
+                     "breed.prot.sel.cfg.SampledSelectionConfigurationMixin.SampledSelectionConfigurationMixin.__deepcopy__",
+                 "pybrops.opt.algo.OptimizationAlgorithm.OptimizationAlgorithm": "opt.algo.OptimizationAlgorithm.OptimizationAlgorithm.__deepcopy__",
+                 "pybrops.opt.algo.UnconstrainedOptimizationAlgorithm.UnconstrainedOptimizationAlgorithm": "opt.algo.UnconstrainedOptimizationAlgorithm.UnconstrainedOptimizationAlgorithm.__deepcopy__"}
+def _deep_names(comp):
+    """table names of the __deepcopy__ methods a deep copy of the component runs (a protocol's deep copy deep-copies its optimisers)"""
+    B = BASE_DEEPCOPY; P = "pybrops."
+    if comp.endswith("Cross"): return [B[P + "breed.prot.mate.MatingProtocol.MatingProtocol"]]
+    if comp.endswith("Cfg"): return [B[P + "breed.prot.sel.cfg.SampledSelectionConfigurationMixin.SampledSelectionConfigurationMixin"]]
+    if comp.startswith(("SelProt", "RandomSelProt")):
+        return [B[P + "breed.prot.sel.SelectionProtocol.SelectionProtocol"], B[P + "opt.algo.OptimizationAlgorithm.OptimizationAlgorithm"]]
+    if comp == "G1NormSel":
+        return [B[P + "breed.prot.sel.UnconstrainedSelectionProtocol.UnconstrainedSelectionProtocol"], B[P + "opt.algo.UnconstrainedOptimizationAlgorithm.UnconstrainedOptimizationAlgorithm"]]
+    if comp.startswith("Uncon"): return [B[P + "opt.algo.UnconstrainedOptimizationAlgorithm.UnconstrainedOptimizationAlgorithm"]]
+    return [B[P + "opt.algo.OptimizationAlgorithm.OptimizationAlgorithm"]]
+# python's default shallow copy shares the attributes, the inherited deep copy shares the generator: must behave as the source
+LIFE_DEFAULT_OK = ["copy", "copy+copy", "setter", "setter+copy", "deepcopy", "deepcopy_memo", "deepcopy+copy", "deepcopy+deepcopy_memo", "setter+deepcopy"]
 # the constructor of a selection configuration samples a first configuration: an object that received its generator later is at another
 # position of the stream than one constructed with it - no reference behaviour to compare the setter route with
 NO_SETTER = lambda c: c.endswith("Cfg")
-# selection protocols that build default optimisers from the constructor's generator: `prot.rng = g` leaves them on the OLD generator
-# (known finding C08-selprot-rng-setter-stale-optimiser); exercised separately and classified
-SETTER_STALE = ("SelProtSubsetGA", "SelProtSubsetMO", "SelProtReal", "SelProtRealMO", "SelProtBinary", "SelProtBinaryMO", "SelProtInteger", "SelProtIntegerMO")
-LIFE_DEFAULT_DEEP = ["deepcopy", "deepcopy_memo", "deepcopy+copy"]     # python's default deep copy duplicates the generator: known finding
+# selection protocols that build default optimisers from the constructor's generator: `prot.rng = g` re-points them too (repaired 4041b1cb / 38415901:
+# formerly they stayed on the OLD generator, C08-selprot-rng-setter-stale-optimiser); ordinary cases now, generated for every one of them
+SETTER_DEFAULT_ALGO = ("SelProtSubsetGA", "SelProtSubsetMO", "SelProtReal", "SelProtRealMO", "SelProtBinary", "SelProtBinaryMO", "SelProtInteger", "SelProtIntegerMO",
+                       "G1NormSel")
+LIFE_DEEP = ["deepcopy", "deepcopy_memo", "deepcopy+copy", "deepcopy+deepcopy_memo", "setter+deepcopy"]     # the inherited deep copy (formerly python's default: C08-default-deepcopy-snapshots-rng)
 
+SELPROT_RNG_SETTER = "breed.prot.sel.SelectionProtocol.SelectionProtocol.rng.setter"
+LEGACY_RNG_SETTERS = ("breed.prot.sel.UnconstrainedGeneralized1NormGenomicSelection.Generalized1NormGenomicSelection.rng.setter",
+                      "breed.prot.sel.UnconstrainedMultiObjectiveGenomicMating.MultiObjectiveGenomicMating.rng.setter")
 def _life_kind(step):
-    """None (constructor) | 'own' (the class defines the route) | 'shallow' | 'deep' (python defaults)"""
+    """None (constructor) | 'own' (the class defines all four routes) | 'shallow' (python's default) | 'deep' (the __deepcopy__ inherited from the base class)"""
     life = step.get("life", "ctor")
     if life == "ctor": return None
     if step["comp"] in OWN_COPY: return "own"
@@ -760,9 +796,9 @@ CLEAN_RNG = ["TwoWayCross", "TwoWayDHCross", "ThreeWayCross", "ThreeWayDHCross",
              "G_E_Phenotyping", "sus", "sus2d", "tiled_choice_norepl", "tiled_choice_repl", "axis_shuffle", "outcross_shuffle",
              "SubsetCfg", "BinaryCfg", "IntegerCfg", "RealCfg", "SubsetMateCfg", "BinaryMateCfg", "IntegerMateCfg", "RealMateCfg",
              "HillClimber", "UnconHill"] + list(GA_PYMOO_OPS) \
-            + list(GA_SUBSET_OPS) + list(SELPROT_COMPS) + list(HELPER_COMPS) + ["UnconSetGA"]          # the repaired components are ordinary cases now
+            + list(GA_SUBSET_OPS) + list(GA_MEMETIC) + list(SELPROT_COMPS) + list(HELPER_COMPS) + ["UnconSetGA"]          # the repaired components are ordinary cases now
 GLOBAL_ONLY = ["spawn", "apply_jitter", "EMBV", "SortingHillClimber", "SortingAlgo"]
-FINDING_COMPS = list(GA_MEMETIC) + list(DEAP_COMPS) + list(NO_RNG_HELPER_COMPS)
+FINDING_COMPS = list(DEAP_COMPS) + list(NO_RNG_HELPER_COMPS)
 LIFE_COMPS = [c for c in CLEAN_RNG if c in OBJ_COMPS]              # object components that take part in the copy lifecycle
 
 def _rand_hist(rng, heavy=False):
@@ -774,7 +810,7 @@ def _rand_hist(rng, heavy=False):
         elif k in ("seed", "npseed", "pyseed"): h.append([k, rng.randint(0, 2 ** 32 - 1)])
         elif k == "life":
             c = rng.choice(LIFE_COMPS)
-            h.append([k, c, {}, rng.choice(LIFE_OWN if c in OWN_COPY else LIFE_DEFAULT_OK[:2])])
+            h.append([k, c, {}, rng.choice(LIFE_OWN if c in OWN_COPY else ["copy", "copy+copy", "deepcopy", "deepcopy_memo"])])
         else: h.append([k, rng.choice(CLEAN_RNG + GLOBAL_ONLY)])
     return h
 
@@ -849,7 +885,7 @@ def gen_cases(rng, tier):
         return {"kind": "isolated", "rngkind": rng.choice(["Generator", "RandomState", "MT"]), "rseed": rng.getrandbits(31), "skip": rng.choice([0, 0, 3]),
                 "h1": _rand_hist(rng), "h2": [["py", rng.randint(1, 30)], ["np", rng.randint(1, 30)]] + _rand_hist(rng), "prog": prog}
     def ok_lives(c):
-        return LIFE_OWN if c in OWN_COPY else [l for l in LIFE_DEFAULT_OK if not (l.startswith("setter") and (NO_SETTER(c) or c in SETTER_STALE))]
+        return LIFE_OWN if c in OWN_COPY else [l for l in LIFE_DEFAULT_OK if not (l.startswith("setter") and NO_SETTER(c))]
     for comp in LIFE_COMPS:           # constructed BEFORE the seeding (rng = None), used after it
         cases.append(repro_case([{"comp": comp, "par": _rand_par(rng, comp), "pre": True}]))
     for comp in LIFE_COMPS:
@@ -867,20 +903,22 @@ def gen_cases(rng, tier):
             if rng.random() < 0.75: prog.append(life_step(c, rng.choice(ok_lives(c)), rng.random() < 0.5))
             else: prog.append({"comp": c, "par": _rand_par(rng, c)})
         cases.append(repro_case(prog) if rng.random() < 0.6 else iso_case(prog))
-    # python's default deep copy of a component without a __deepcopy__ of its own duplicates the generator (known finding)
-    for _ in range(6 if quick else 40):
-        c = rng.choice([x for x in LIFE_COMPS if x not in OWN_COPY and x not in GA_COMPS and not x.startswith("SelProt")])
-        prog = [life_step(c, rng.choice(LIFE_DEFAULT_DEEP), True)]
-        cases.append(repro_case(prog, False)); cases.append(iso_case([life_step(c, rng.choice(LIFE_DEFAULT_DEEP), rng.random() < 0.5)]))
+    # deep copies (formerly python's default deep copy, which duplicated the generator): every object component, made before the seeding / with its own generator
+    deepable = [x for x in LIFE_COMPS if x not in OWN_COPY]
+    for c in (rng.sample(deepable, 14) if quick else deepable * 2):
+        lives = [l for l in LIFE_DEEP if not (l.startswith("setter") and NO_SETTER(c))]
+        prog = [life_step(c, rng.choice(lives), True)]
+        cases.append(repro_case(prog, False)); cases.append(iso_case([life_step(c, rng.choice(lives), rng.random() < 0.5)]))
     # the rng setter of the selection configurations (their constructor draws: no reference program; nothing may depend on the
     # throw-away generator the object was constructed with)
     for c in [x for x in LIFE_COMPS if NO_SETTER(x)]:
         for rep in range(1 if quick else 3):
             cases.append(iso_case([life_step(c, rng.choice(["setter", "setter+copy"]), False)]))
             cases.append(repro_case([life_step(c, rng.choice(["setter", "setter+copy"]), rng.random() < 0.5)], False))
-    # the rng setter of a selection protocol with default optimisers (known finding)
-    for c in (rng.sample(SETTER_STALE, 3) if quick else SETTER_STALE):
-        cases.append(iso_case([life_step(c, "setter", False)])); cases.append(repro_case([life_step(c, "setter", rng.random() < 0.5)], False))
+    # the rng setter of a protocol with default optimisers (formerly left on the old generator): every one of them, also followed by copies
+    for c in (rng.sample(SETTER_DEFAULT_ALGO, 5) if quick else SETTER_DEFAULT_ALGO * 2):
+        cases.append(iso_case([life_step(c, rng.choice(["setter", "setter", "setter+copy", "setter+deepcopy"]), False)]))
+        cases.append(repro_case([life_step(c, "setter", rng.random() < 0.5)], False))
     rng.shuffle(cases)          # spread the heavy seed-model cases over the shards
     return cases
 
@@ -889,6 +927,8 @@ def _static_names(prog):
     names = []
     for st in prog:
         extra = OWN_COPY[st["comp"]][2] if (st.get("life", "ctor") != "ctor" and st["comp"] in OWN_COPY) else []
+        if _life_kind(st) == "deep": extra = _deep_names(st["comp"])
+        if st.get("life", "ctor").startswith("setter") and st["comp"].startswith("SelProt"): extra = list(extra) + [SELPROT_RNG_SETTER]
         for n in list(COMPONENTS[st["comp"]][0]) + list(extra):
             if n not in names: names.append(n)
     return names
@@ -901,6 +941,8 @@ def all_static_names():
     for v in OWN_COPY.values():
         for n in v[2]:
             if n not in out: out.append(n)
+    for n in list(BASE_DEEPCOPY.values()) + [SELPROT_RNG_SETTER] + list(LEGACY_RNG_SETTERS):
+        if n not in out: out.append(n)
     return out
 
 def emit_case(case, out):
@@ -1022,43 +1064,21 @@ def classify(case, out, clauses):
         ix = [i for i, c in enumerate(comps) if c in pool]
         return ix[0] if ix else None
     steps = [int(c.split()[1].rstrip(":")) for c in clauses if c.startswith("step ")]
-    # python's default deep copy (a class WITHOUT copy routes of its own) duplicates the generator the component holds
-    deep = [i for i, s in enumerate(case["prog"]) if _life_kind(s) == "deep"]
-    if deep:
-        if not clauses or any(c in GA_MEMETIC + DEAP_COMPS + NO_RNG_HELPER_COMPS for c in comps): return None
-        if any("global stream was advanced" in c or "not a function of the supplied generator" in c for c in clauses): return None
-        if steps and min(steps) < deep[0]: return None
-        marks = ("does not behave as its source", "does not consume the supplied generator", "outputs differ after the same seed",
-                 "stream differs at the end of the seeded program", "differ between a process that executed other calls before and a fresh one",
-                 "differ between a used process and a fresh one")
-        if all(any(m in c for m in marks) for c in clauses): return "C08-default-deepcopy-snapshots-rng"
-        return None
-    # `prot.rng = g` on a selection protocol whose default optimisers were built from the constructor's generator
-    stale = [i for i, s in enumerate(case["prog"]) if s.get("life", "ctor").startswith("setter") and s["comp"] in SETTER_STALE]
-    if stale:
-        if not clauses or any(c in GA_MEMETIC + DEAP_COMPS + NO_RNG_HELPER_COMPS for c in comps): return None
-        if any("python's global" in c for c in clauses): return None
-        if steps and min(steps) < stale[0]: return None
-        marks = ("does not behave as its source", "does not consume the supplied generator", "outputs differ after the same seed",
-                 "differ between a process that executed other calls before and a fresh one", "differs between a process that executed other calls before and a fresh one",
-                 "result is not a function of the supplied generator's state")
-        if any("global stream was advanced" in c for c in clauses): return None
-        if all(any(m in c for m in marks) for c in clauses): return "C08-selprot-rng-setter-stale-optimiser"
-        return None
+    # (copies - shallow, deep, own routes - and the rng setter are ordinary cases: C08-default-deepcopy-snapshots-rng and
+    #  C08-selprot-rng-setter-stale-optimiser are repaired, nothing about the object lifecycle is excused)
     if case["kind"] == "repro":
         return None                     # after seeding everything must be reproducible (C08-ga-os-entropy is fixed)
     # isolated: exactly one kind of culprit in the program
     kinds = set()
     for c in comps:
-        if c in GA_MEMETIC: kinds.add("C08-memetic-ignores-rng")
-        elif c in DEAP_COMPS: kinds.add("C08-deap-python-random")
+        if c in DEAP_COMPS: kinds.add("C08-deap-python-random")
         elif c in NO_RNG_HELPER_COMPS: kinds.add("C08-helpers-no-rng-param")
     if len(kinds) != 1: return None
     fid = kinds.pop()
-    culprit = first(GA_MEMETIC + DEAP_COMPS + NO_RNG_HELPER_COMPS)
+    culprit = first(DEAP_COMPS + NO_RNG_HELPER_COMPS)
     if steps and min(steps) < culprit: return None
     if fid == "C08-deap-python-random" and any("numpy's global" in c for c in clauses): return None
-    if fid in ("C08-memetic-ignores-rng", "C08-helpers-no-rng-param") and (any("python's global" in c for c in clauses) or not any("numpy's global" in c for c in clauses)): return None
+    if fid == "C08-helpers-no-rng-param" and (any("python's global" in c for c in clauses) or not any("numpy's global" in c for c in clauses)): return None
     return fid
 
 def nontrivial(case, out):
@@ -1203,22 +1223,35 @@ def audit_entry_points():
         problems.append("%s (%s accepting rng) is not classified: add a component (ENTRY_COVERED) or a reason (ENTRY_SKIPPED)" % (q, kind))
     for q in list(ENTRY_COVERED) + list(ENTRY_SKIPPED):
         if q not in found: problems.append("%s is classified but no longer exists / no longer accepts rng (stale entry)" % q)
-    # copy routes: which stochastic classes define copy methods of their own (anywhere in their pybrops MRO)
-    own = {}
+    # copy routes: which copy methods the stochastic classes have (anywhere in their pybrops MRO).  Either the class is listed in OWN_COPY
+    # with exactly its routes, or its ONLY route is the __deepcopy__ it inherits from one of the six base classes of BASE_DEEPCOPY (which
+    # shares the generator).  A class accepting rng WITHOUT a __deepcopy__ would fall back on python's default deep copy, which duplicates
+    # the generator: refused.
+    own, base_deep = {}, {}
     for q, ob in classes.items():
         r = tuple(k for k in COPY_METHODS if any(k in vars(c) for c in ob.__mro__ if c.__module__.startswith("pybrops")))
-        if r: own[_P + q] = r
+        own[_P + q] = r
+        definer = next((c for c in ob.__mro__ if "__deepcopy__" in vars(c)), None)
+        if definer is not None: base_deep[_P + q] = definer.__module__ + "." + definer.__name__
     want = {v[0]: tuple(v[1]) for v in OWN_COPY.values()}
     for q in sorted(set(own) | set(want)):
-        if own.get(q) != want.get(q):
-            problems.append("copy routes of %s are %s, the lifecycle table OWN_COPY says %s: reclassify (every route of a stochastic class must be exercised)"
-                            % (q, own.get(q), want.get(q)))
+        if q in want:
+            if own.get(q) != want[q]:
+                problems.append("copy routes of %s are %s, the lifecycle table OWN_COPY says %s: reclassify (every route of a stochastic class must be exercised)"
+                                % (q, own.get(q), want.get(q)))
+        elif own[q] != ("__deepcopy__",) or base_deep.get(q) not in BASE_DEEPCOPY:
+            problems.append("copy routes of %s are %s (deep copy defined by %s): a class accepting rng must inherit the generator-sharing __deepcopy__ of one of %s "
+                            "and define no other copy method, or be listed in OWN_COPY" % (q, own[q], base_deep.get(q), sorted(x.rsplit(".", 1)[1] for x in BASE_DEEPCOPY)))
+    used_bases = set(base_deep.values())
+    for b in BASE_DEEPCOPY:
+        if b not in used_bases: problems.append("BASE_DEEPCOPY lists %s but no class accepting rng inherits its __deepcopy__ (stale entry)" % b)
     for c in OWN_COPY:
         if c not in OBJ_COMPS: problems.append("OWN_COPY component %s is not an object component" % c)
     if problems:
         raise RuntimeError("entry-point audit: " + " || ".join(problems[:8]) + (" || ... %d more" % (len(problems) - 8) if len(problems) > 8 else ""))
     return {"audit": "entry points accepting rng", "found": len(found), "executed_by_components": sum(1 for q in found if q in ENTRY_COVERED),
-            "inherit_family_select": len(inherited), "skipped_with_reason": sorted(ENTRY_SKIPPED), "classes_with_own_copy_routes": sorted(own),
+            "inherit_family_select": len(inherited), "skipped_with_reason": sorted(ENTRY_SKIPPED), "classes_with_own_copy_routes": sorted(want),
+            "classes_inheriting_sharing_deepcopy": sum(1 for q in own if q not in want),
             "unimportable_modules": sorted(set(unimportable))}
 
 def translate(repo, gen_dir):
